@@ -31,6 +31,7 @@ struct Cfg {
   std::vector<float> w;   // user weights, flat (z,y,x)
   bool only2D = false;
   bool parse_route = false; // only 2D / weights given through the parser instead of the setters
+  bool ctor_route = false;  // only 2D, penalisation factor (and gamma, epsilon, scalar) given to the documented constructor
   std::vector<float> kappa; // empty: none
   float beta = 1;
   float gamma = 2, eps = 1, scalar = 1, alpha = 1, eta = 1;
@@ -39,6 +40,7 @@ struct Cfg {
 };
 
 template <class P> struct Open : public P {
+  using P::P;
   void open_set_only_2D(bool b) { this->only_2D = b; }
 };
 
@@ -64,6 +66,8 @@ static BasicCoordinate<3, int> coords_of(const Cfg& c, int i /*0-based flat*/) {
   b[3] = c.mn[2] + i % c.n[2];
   return b;
 }
+
+static const char* route_of(const Cfg& c) { return c.parse_route ? "parse" : (c.ctor_route ? "ctor" : "api"); }
 
 struct Box {
   shared_ptr<Prior> p;
@@ -104,9 +108,10 @@ static Box make_prior(const Cfg& c, const shared_ptr<Img>& target) {
   shared_ptr<Img> kap;
   if (!c.kappa.empty()) kap = image_from(c, c.kappa);
   if (c.prior == "quad") {
-    auto* q = new Open<QuadraticPrior<float>>();
+    auto* q = c.ctor_route ? new Open<QuadraticPrior<float>>(c.only2D, c.beta) : new Open<QuadraticPrior<float>>();
     b.p.reset(q);
-    if (c.parse_route) {
+    if (c.ctor_route) configure_weights(*q, c);
+    else if (c.parse_route) {
       std::ostringstream s;
       s << "Quadratic Prior Parameters:=\npenalisation factor:=" << c.beta << "\nonly 2D:=" << (c.only2D ? 1 : 0) << "\n";
       if (c.userw) s << "weights:=" << weights_text(c) << "\n";
@@ -122,9 +127,10 @@ static Box make_prior(const Cfg& c, const shared_ptr<Img>& target) {
     if (kap) q->set_kappa_sptr(kap);
     b.get_weights = [q]() { return q->get_weights(); };
   } else if (c.prior == "rdp") {
-    auto* q = new Open<RelativeDifferencePrior<float>>();
+    auto* q = c.ctor_route ? new Open<RelativeDifferencePrior<float>>(c.only2D, c.beta, c.gamma, c.eps) : new Open<RelativeDifferencePrior<float>>();
     b.p.reset(q);
-    if (c.parse_route) {
+    if (c.ctor_route) configure_weights(*q, c);
+    else if (c.parse_route) {
       std::ostringstream s;
       s << "Relative Difference Prior Parameters:=\npenalisation factor:=" << c.beta << "\nonly 2D:=" << (c.only2D ? 1 : 0) << "\ngamma value:=" << c.gamma
         << "\nepsilon value:=" << c.eps << "\n";
@@ -143,9 +149,10 @@ static Box make_prior(const Cfg& c, const shared_ptr<Img>& target) {
     if (kap) q->set_kappa_sptr(kap);
     b.get_weights = [q]() { return q->get_weights(); };
   } else if (c.prior == "logcosh") {
-    auto* q = new Open<LogcoshPrior<float>>();
+    auto* q = c.ctor_route ? new Open<LogcoshPrior<float>>(c.only2D, c.beta, c.scalar) : new Open<LogcoshPrior<float>>();
     b.p.reset(q);
-    if (c.parse_route) {
+    if (c.ctor_route) configure_weights(*q, c);
+    else if (c.parse_route) {
       std::ostringstream s;
       s << "Logcosh Prior Parameters:=\npenalisation factor:=" << c.beta << "\nonly 2D:=" << (c.only2D ? 1 : 0) << "\nscalar:=" << c.scalar << "\n";
       if (c.userw) s << "weights:=" << weights_text(c) << "\n";
@@ -162,10 +169,12 @@ static Box make_prior(const Cfg& c, const shared_ptr<Img>& target) {
     if (kap) q->set_kappa_sptr(kap);
     b.get_weights = [q]() { return q->get_weights(); };
   } else {
-    auto* q = new Open<PLSPrior<float>>();
+    auto* q = c.ctor_route ? new Open<PLSPrior<float>>(c.only2D, c.beta) : new Open<PLSPrior<float>>();
     b.p.reset(q);
-    q->open_set_only_2D(c.only2D);
-    q->set_penalisation_factor(c.beta);
+    if (!c.ctor_route) {
+      q->open_set_only_2D(c.only2D);
+      q->set_penalisation_factor(c.beta);
+    }
     q->set_alpha(c.alpha);
     q->set_eta(c.eta);
     q->set_anatomical_image_sptr(image_from(c, c.anat));
@@ -283,6 +292,7 @@ static void pick_weights(Cfg& c, vh::Rng& rng, int idx, bool exact) {
   case 2: symmetric_weights(c, rng, 0, 1, 1, qmax, step); break;                 // 2D stencil
   case 3: symmetric_weights(c, rng, 1, 1, 1, qmax, step); c.parse_route = true; break; // 3x3x3 through the parser
   case 4: symmetric_weights(c, rng, rng.range(0, 2), rng.range(0, 2), rng.range(0, 2), qmax, step, 1); break; // anisotropic stencil
+  case 5: if (rng.coin()) symmetric_weights(c, rng, 1, 0, 1, qmax, step); else symmetric_weights(c, rng, 1, 1, 0, qmax, step); break; // 3x1x3, 3x3x1
   case 6: // weights that are NOT symmetric under dr -> -dr
     symmetric_weights(c, rng, 1, 1, 1, qmax, step);
     for (size_t k = 0; k < c.w.size() / 2; ++k) c.w[k] = rng.range(0, qmax) * step;
@@ -319,18 +329,80 @@ static std::vector<long long> asint(const std::vector<float>& v) {
 static long cfg_id = 0;
 
 // ---------------------------------------------------------------- exact instances
+// weights along one axis only (a chain stencil): w, 0, w on that axis
+static void axis_weights(Cfg& c, int axis, float w) {
+  c.userw = true;
+  c.wr[0] = c.wr[1] = c.wr[2] = 0;
+  c.wr[axis] = 1;
+  c.w = { w, 0.F, w };
+}
+// image whose lines along `axis` are chains with x_i + x_{i+1} + eps a power of two (<= 32): with gamma = 0 every
+// RDP term is then a dyadic rational and single/double precision arithmetic is exact
+static std::vector<float> chain_image(const Cfg& c, vh::Rng& rng, int axis, int eps) {
+  const int n = c.nvox();
+  std::vector<float> v(n, 0.F);
+  const int stride = axis == 2 ? 1 : (axis == 1 ? c.n[2] : c.n[1] * c.n[2]);
+  for (int i = 0; i < n; ++i) {
+    const int pos = (i / stride) % c.n[axis];
+    if (pos == 0) { v[i] = (float)rng.range(0, 6); continue; }
+    const int prev = (int)v[i - stride];
+    std::vector<int> cand;
+    for (int m = 1; m <= 5; ++m) { const int nx = (1 << m) - eps - prev; if (nx >= 0 && nx <= 20) cand.push_back(nx); }
+    v[i] = cand.empty() ? (float)prev : (float)rng.pick(cand); // (prev, prev) with D = 2 prev + eps is not a power of two in general: TLC decides
+  }
+  return v;
+}
+// image that is constant along every axis on which the stencil extends (all neighbour differences are 0)
+static std::vector<float> flat_image(const Cfg& c, vh::Rng& rng, int lo, int hi) {
+  const int n = c.nvox();
+  std::vector<float> az(c.n[0]), ay(c.n[1]), ax(c.n[2]);
+  for (auto& q : az) q = c.wr[0] == 0 ? (float)rng.range(lo, hi) : 0.F;
+  for (auto& q : ay) q = c.wr[1] == 0 ? (float)rng.range(lo, hi) : 0.F;
+  for (auto& q : ax) q = c.wr[2] == 0 ? (float)rng.range(lo, hi) : 0.F;
+  const float base = (float)rng.range(lo, hi);
+  std::vector<float> v(n);
+  for (int i = 0; i < n; ++i) v[i] = base + az[i / (c.n[1] * c.n[2])] + ay[(i / c.n[2]) % c.n[1]] + ax[i % c.n[2]];
+  return v;
+}
+
 static void run_exact(vh::Trace& tr, vh::Rng& rng, int idx, bool big) {
+  // families: 0 quadratic, 1 RDP (fixed point), 2 RDP with gamma = 0 on chain images (dyadic: exact), 3 log-cosh on images
+  // without differences between neighbours (exact)
+  static const int FAM[] = { 0, 1, 0, 1, 2, 3 };
+  const int fam = FAM[idx % 6];
   Cfg c;
   c.exact = true;
-  c.prior = (idx % 2 == 0) ? "quad" : "rdp";
-  const bool quad = c.prior == "quad";
-  pick_shape(c, rng, idx / 2, big && quad, quad ? 720 : 30);
+  c.prior = fam == 0 ? "quad" : (fam == 3 ? "logcosh" : "rdp");
+  const bool quad = fam == 0;
+  pick_shape(c, rng, idx / 2, big && quad, quad ? 720 : (fam == 1 ? 30 : 60));
   c.sp[0] = 1.F + rng.range(0, 3); c.sp[1] = 1.F + rng.range(0, 3) * 0.5F; c.sp[2] = 1.F + rng.range(0, 2);
-  pick_weights(c, rng, idx / 2 + idx / 16, true);
-  if (rng.range(0, 2) != 0) c.kappa = random_ints(rng, c.nvox(), 1, quad ? 3 : 2);
-  c.beta = (float)rng.range(1, quad ? 3 : 2);
-  c.gamma = (float)rng.range(0, 3);
-  c.eps = (float)rng.range(1, 2);
+  int axis = 2;
+  if (fam == 2) {
+    // the chain runs along an axis with more than one voxel where there is one
+    axis = rng.range(0, 2);
+    for (int t = 0; t < 3 && c.n[axis] == 1; ++t) axis = (axis + 1) % 3;
+    axis_weights(c, axis, (float)rng.range(1, 3));
+    c.parse_route = rng.range(0, 3) == 0;
+  } else
+    pick_weights(c, rng, idx / 2 + idx / 16, true);
+  // kappa: none, positive integers, or integers including zeros
+  switch (rng.range(0, 3)) {
+  case 0: break;
+  case 1: c.kappa = random_ints(rng, c.nvox(), 0, quad ? 3 : 2); break;
+  default: c.kappa = random_ints(rng, c.nvox(), 1, quad ? 3 : 2); break;
+  }
+  // penalisation factor: positive, and sometimes zero or negative
+  static const int BETAS[] = { 1, 2, 3, 1, 2, 1, 0, -1, -2, 2 };
+  c.beta = (float)BETAS[rng.range(0, 9)];
+  if (!quad && c.beta == 3.F) c.beta = 2.F;
+  static const int GAMMAS[] = { 0, 1, 2, 3, 10 };
+  static const int EPSS[] = { 1, 2, 1, 2, 8 };
+  c.gamma = fam == 2 ? 0.F : (float)GAMMAS[rng.range(0, 4)];
+  c.eps = fam == 2 ? (float)(1 << rng.range(0, 2)) : (float)EPSS[rng.range(0, 4)];
+  static const float SC[] = { 0.5F, 1.F, 2.F, 8.F };
+  c.scalar = SC[rng.range(0, 3)];
+  // only_2D and the penalisation factor through the documented constructors (user weights are then set afterwards)
+  if (!c.parse_route && rng.range(0, 3) == 0) { c.ctor_route = true; c.only2D = rng.coin(); }
   const int xmax = quad ? 7 : 5;
   if (!quad && c.wr[0] == 2) { for (auto& v : c.w) v = std::min(v, 1.F); }
 
@@ -339,7 +411,7 @@ static void run_exact(vh::Trace& tr, vh::Rng& rng, int idx, bool big) {
   Prior& p = *b.p;
   if (g_rejected) {
     vh::Json j("ConfigRejected");
-    j.num("id", ++cfg_id).str("prior", c.prior).str("mode", "E").arr("wr", std::vector<int>{ c.wr[0], c.wr[1], c.wr[2] }).arr("w", asint(c.w)).str("route", c.parse_route ? "parse" : "api");
+    j.num("id", ++cfg_id).str("prior", c.prior).str("mode", "E").arr("wr", std::vector<int>{ c.wr[0], c.wr[1], c.wr[2] }).arr("w", asint(c.w)).str("route", route_of(c));
     finish(tr, j);
     return;
   }
@@ -347,16 +419,16 @@ static void run_exact(vh::Trace& tr, vh::Rng& rng, int idx, bool big) {
     vh::Json j("Config");
     j.num("id", ++cfg_id).str("prior", c.prior).str("mode", "E").arr("dims", std::vector<int>{ c.n[0], c.n[1], c.n[2] })
         .arr("mins", std::vector<int>{ c.mn[0], c.mn[1], c.mn[2] }).arr("wr", std::vector<int>{ c.wr[0], c.wr[1], c.wr[2] }).arr("w", asint(c.w))
-        .arr("kappa", asint(c.kappa)).num("beta", (long long)c.beta).num("gamma", (long long)c.gamma).num("eps", (long long)c.eps)
-        .boolean("convex", p.is_convex()).str("route", c.parse_route ? "parse" : "api");
+        .arr("kappa", asint(c.kappa)).boolean("hasKappa", !c.kappa.empty()).num("beta", (long long)c.beta).num("gamma", (long long)c.gamma).num("eps", (long long)c.eps)
+        .num("scalar1000", (long long)std::llround(c.scalar * 1000)).num("fam", fam).boolean("convex", p.is_convex()).str("route", route_of(c));
     finish(tr, j);
   }
   const int kV = quad ? 2 : 15, kG = quad ? 0 : 16, kH = quad ? 0 : 16;
   const int n = c.nvox();
   const int nimg = n > 200 ? 1 : 2;
   for (int im = 0; im < nimg; ++im) {
-    std::vector<float> xv = random_ints(rng, n, 0, xmax);
-    if (im == 1 && rng.range(0, 3) == 0) xv.assign(n, (float)rng.range(0, xmax)); // sometimes a uniform image
+    std::vector<float> xv = fam == 2 ? chain_image(c, rng, axis, (int)c.eps) : (fam == 3 ? flat_image(c, rng, 0, 3) : random_ints(rng, n, 0, xmax));
+    if (fam < 2 && im == 1 && rng.range(0, 3) == 0) xv.assign(n, (float)rng.range(0, xmax)); // sometimes a uniform image
     shared_ptr<Img> x = image_from(c, xv);
     { vh::Json j("Image"); j.arr("x", asint(xv)); finish(tr, j); }
     {
@@ -464,23 +536,32 @@ static void run_rel(vh::Trace& tr, vh::Rng& rng, int idx, bool big) {
   static const float SP[] = { 1.F, 1.5F, 2.F, 2.3F, 3.27F, 4.F, 0.8F };
   for (int a = 0; a < 3; ++a) c.sp[a] = SP[rng.range(0, 6)];
   if (!pls) {
-    switch ((idx / 4) % 5) {
-    case 0: break;                                  // default weights from the grid spacing
-    case 1: c.only2D = true; break;                 // default 2D weights
-    case 2: c.only2D = true; c.parse_route = true; break;
-    default: pick_weights(c, rng, (idx / 20) % 8 >= 6 ? (idx / 20) % 8 : rng.range(0, 4), false); break;
+    switch ((idx / 4) % 6) {
+    case 0: c.ctor_route = rng.coin(); break;       // default weights from the grid spacing
+    case 1: c.only2D = true; break;                 // default 2D weights (member set through a derived class)
+    case 2: c.only2D = true; c.parse_route = true; break; // 'only 2D:=1'
+    case 3: c.only2D = true; c.ctor_route = true; break;  // only_2D argument of the documented constructor
+    default: pick_weights(c, rng, (idx / 24) % 8 >= 6 ? (idx / 24) % 8 : rng.range(0, 5), false); break;
     }
-  } else
-    c.only2D = (idx / 4) % 3 == 1 && !getenv("C09_SKIP_PLS2D"); // (PLSPrior with only_2D binds references to null pointers: outside C09, see notes)
+  } else {
+    // (PLSPrior with only_2D binds references to null pointers: UBSan stops there, see notes)
+    c.only2D = (idx / 4) % 3 == 1 && !getenv("C09_SKIP_PLS2D");
+    c.ctor_route = (idx / 4) % 6 == 4 || (idx / 4) % 6 == 2;
+  }
   const int n = c.nvox();
-  if (rng.range(0, 2) != 0) c.kappa = random_dyadic(rng, n, 4, 11, 0.25F); // [1, 2.75]
-  static const float BETA[] = { 1.F, 0.5F, 2.F, 3.F, 0.75F };
-  c.beta = BETA[rng.range(0, 4)];
-  static const float GAM[] = { 0.F, 0.5F, 2.F };
-  c.gamma = GAM[rng.range(0, 2)];
-  c.eps = rng.coin() ? 0.25F : 1.F;
-  static const float SC[] = { 0.5F, 1.F, 2.F };
-  c.scalar = SC[rng.range(0, 2)];
+  switch (rng.range(0, 3)) { // kappa: none, in [1, 2.75], or in [0, 2.75] including zeros
+  case 0: break;
+  case 1: c.kappa = random_dyadic(rng, n, 0, 11, 0.25F); for (int t = 0; t < n; t += 3) c.kappa[rng.range(0, n - 1)] = 0.F; break;
+  default: c.kappa = random_dyadic(rng, n, 4, 11, 0.25F); break;
+  }
+  static const float BETA[] = { 1.F, 0.5F, 2.F, 3.F, 0.75F, 1.F, 2.F, 0.F, -1.F, -0.5F };
+  c.beta = BETA[rng.range(0, 9)];
+  static const float GAM[] = { 0.F, 0.5F, 2.F, 16.F };
+  c.gamma = GAM[rng.range(0, 3)];
+  static const float EPS[] = { 0.25F, 1.F, 0.0009765625F, 64.F, 1.F, 0.25F };
+  c.eps = EPS[rng.range(0, 5)];
+  static const float SC[] = { 0.5F, 1.F, 2.F, 8.F };
+  c.scalar = SC[rng.range(0, 3)];
   c.alpha = rng.coin() ? 1.F : 0.5F;
   c.eta = rng.coin() ? 1.F : 0.25F;
   if (pls) c.anat = random_dyadic(rng, n, 1, 63, 0.125F);
@@ -490,7 +571,7 @@ static void run_rel(vh::Trace& tr, vh::Rng& rng, int idx, bool big) {
   Prior& p = *b.p;
   if (g_rejected) {
     vh::Json j("ConfigRejected");
-    j.num("id", ++cfg_id).str("prior", c.prior).str("mode", "F").arr("wr", std::vector<int>{ c.wr[0], c.wr[1], c.wr[2] }).arr("w", fxv(c.userw ? c.w : std::vector<float>(), 2)).str("route", c.parse_route ? "parse" : "api");
+    j.num("id", ++cfg_id).str("prior", c.prior).str("mode", "F").arr("wr", std::vector<int>{ c.wr[0], c.wr[1], c.wr[2] }).arr("w", fxv(c.userw ? c.w : std::vector<float>(), 2)).str("route", route_of(c));
     finish(tr, j);
     return;
   }
@@ -517,14 +598,26 @@ static void run_rel(vh::Trace& tr, vh::Rng& rng, int idx, bool big) {
     j.num("id", ++cfg_id).str("prior", c.prior).str("mode", "F").arr("dims", std::vector<int>{ c.n[0], c.n[1], c.n[2] })
         .arr("mins", std::vector<int>{ c.mn[0], c.mn[1], c.mn[2] }).arr("wr", std::vector<int>{ wr[0], wr[1], wr[2] })
         .boolean("userw", c.userw).arr("w4", fxv(c.userw ? c.w : std::vector<float>(), 2)).boolean("only2D", c.only2D).boolean("hasKappa", !c.kappa.empty()).boolean("convex", p.is_convex())
-        .num("betaCeil", (long long)std::ceil(c.beta)).num("wsum", (long long)std::ceil(wsum)).num("kmax2", (long long)std::ceil(kmax * kmax))
+        .num("betaCeil", std::max(1LL, (long long)std::ceil(std::fabs(c.beta)))).num("betaSign", c.beta > 0 ? 1 : (c.beta < 0 ? -1 : 0)).num("wsum", (long long)std::ceil(wsum)).num("kmax2", (long long)std::ceil(kmax * kmax))
         .num("beta1000", (long long)std::llround(c.beta * 1000)).arr("sp1000", std::vector<long long>{ std::llround(c.sp[0] * 1000), std::llround(c.sp[1] * 1000), std::llround(c.sp[2] * 1000) })
         .arr("par1000", std::vector<long long>{ std::llround(c.gamma * 1000), std::llround(c.eps * 1000), std::llround(c.scalar * 1000), std::llround(c.alpha * 1000), std::llround(c.eta * 1000) })
-        .str("route", c.parse_route ? "parse" : "api").boolean("valueErr", verr);
+        .str("route", route_of(c)).boolean("valueErr", verr);
     finish(tr, j);
   }
   const bool small = n <= 30;
   if (small) { vh::Json j("Image"); j.num("xk", 3).arr("x", fxv(xv, 3)); finish(tr, j); }
+  if (pls && c.only2D) {
+    // value of an image that varies along z only (every plane uniform), with alpha, beta, kappa as configured
+    std::vector<float> zv(n);
+    for (int i = 0; i < n; ++i) zv[i] = 1.F + 0.5F * (float)((i / (c.n[1] * c.n[2])) % 3);
+    double v = 0, ks = 0;
+    bool err = vh::threw([&] { v = p.compute_value(*image_from(c, zv)); });
+    for (int i = 0; i < n; ++i) ks += c.kappa.empty() ? 1.0 : c.kappa[i];
+    vh::Json j("PLS2D");
+    j.boolean("err", err).num("k", 8).num("m", fxq(v, 8)).num("res", resq(v, 8)).num("b8", (long long)std::llround(c.beta * 8)).num("a8", (long long)std::llround(c.alpha * 8))
+        .num("ksum4", (long long)std::llround(ks * 4));
+    finish(tr, j);
+  }
 
   // ---- Hessian: row i, H e_i, and the transposed entries (every voxel)
   std::vector<std::vector<float>> rows(n), cols(n);
